@@ -97,6 +97,9 @@ def run_config(cfg):
         want_unsat("the mapped function failed on an input, all threads finished, but the consumer ended normally (error swallowed)",
                    "failure-not-surfaced", comp.all_finished(), z3.Or(comp.normal_end + [z3.BoolVal(False)]),
                    comp.j0 >= 0, comp.j0 < n)
+        want_unsat("the consumer had already received the failure record and still yielded a result or handed a further input to the "
+                   "workers (the error is deferred to the end of the input: on a repeating, endless input it never surfaces)",
+                   "failure-deferred", z3.Or(comp.after_failure + [z3.BoolVal(False)]))
         want_unsat("consumer ended with the pool not reset after a failure", "pool-not-reusable-after-failure",
                    z3.Or(comp.state_bad + [z3.BoolVal(False)]))
         want_sat("twin: the consumer observes the failure", z3.Or(comp.raises + [z3.BoolVal(False)]), comp.j0 >= 0, comp.j0 < n)
@@ -154,10 +157,48 @@ def run(tier, seed):
     )
 
 
+def _deferred_failure(sch):
+    """Real pool, real threads, an ENDLESS input on which one call fails: the consumer must see the error after a bounded
+    number of further results."""
+    import importlib
+    import itertools
+    import threading
+    import sedpack.io.itertools.lazy_pool as lp
+    lp = importlib.reload(lp)
+    T = sch["T"]
+    j0 = sch.get("failing_input")
+    j0 = j0 if isinstance(j0, int) and j0 >= 0 else 0
+    out = dict(results=0, raised=None)
+
+    def f(v):
+        if v == j0:
+            raise OSError(f"vt: call on input {v} fails")
+        return v
+
+    def consume():
+        try:
+            with lp.LazyPool(T) as pool:
+                for _ in pool.imap_unordered(f, itertools.count()):
+                    out["results"] += 1
+                    if out["results"] >= 400:
+                        break
+        except OSError as exc:
+            out["raised"] = str(exc)
+    th = threading.Thread(target=consume, daemon=True)
+    th.start()
+    th.join(60)
+    if out["raised"] is None:
+        return True, (f"real LazyPool({T}) on an endless input whose call #{j0} fails: the consumer received {out['results']} further "
+                      f"results and no error ({'still running' if th.is_alive() else 'ended'})")
+    return False, f"error surfaced after {out['results']} results"
+
+
 def replay(case):
     common.import_sedpack()
     sch = case["schedule"]
     kind = case["kind"]
+    if kind == "failure-deferred":
+        return _deferred_failure(sch)
     attempts = []
     for attempt in range(4):
         s2 = dict(sch)
